@@ -5,6 +5,7 @@
 #include "c01.h"
 #include "rkcommon/tasking/parallel_for.h"
 #include "rkcommon/tasking/parallel_foreach.h"
+#include "rkcommon/tasking/schedule.h"
 #include "rkcommon/tasking/tasking_system_init.h"
 
 using namespace rkcommon::tasking;
@@ -152,7 +153,17 @@ extern "C" void c01_run()
           sim_work(2);
       });
     } else {
+      if (c.prefill) {
+        SimTag tag(SIM_TAG_SUT);
+        int nb = c.prefill_block ? p->init_threads - 1 : 0;
+        for (int i = 0; i < nb; i++)
+          schedule([]() { c01_blocker(); });  // a long-running task, like a TASK-launched AsyncLoop
+        c01_wait_blockers(nb);
+        for (int i = 0; i < c.prefill; i++)
+          schedule([]() { c01_prefill_ran(); });
+      }
       run_call(c, false, c.api, c.itype, c.count, c.block);
+      c01_release_blockers();
     }
   }
   sim_phase(3);
